@@ -360,13 +360,30 @@ def shape_f1(case):
     return any(s in NOSTART for cmd in case["cmds"] for s in cmd["stages"][1:])
 
 
+def shape_f1_blocked_alias(case):
+    """F1 shape where a threaded callable alias that has more than a pipe buffer to write (a big producer
+    at or before it) precedes the stage that cannot start: its thread stays blocked in write() inside
+    its stdout / SIGINT scope."""
+    if not _threaded(case):
+        return False
+    for cmd in case["cmds"]:
+        st = cmd["stages"]
+        for k, s in enumerate(st):
+            if s not in NOSTART:
+                continue
+            for j in range(k):
+                if STAGES[st[j]][2] and st[j] != "aunth" and any(x in PRODUCERS for x in st[:j + 1]):
+                    return True
+    return False
+
+
 def shape_f2(case):
     """Threaded callable alias that is not the last stage of its pipeline."""
     return _threaded(case) and any(STAGES[s][2] and s != "aunth" for cmd in case["cmds"] for s in cmd["stages"][:-1])
 
 
 def shape_f3(case):
-    """Two threaded callable aliases in one pipeline (or a nested one) - their stdout scopes can overlap."""
+    """Two threaded callable aliases in one pipeline - their sys.stdout scopes overlap and end out of order."""
     if not _threaded(case):
         return False
     for cmd in case["cmds"]:
@@ -376,11 +393,26 @@ def shape_f3(case):
     return False
 
 
+def _f1_resource_problem(p, blocked_alias):
+    if p.startswith(("fd-leak:", "fd-growth:")):
+        return not any(k in p for k in ("->file", "->pty", "->socket", "->anon_inode", "'file'", "'pty'", "'socket'"))
+    if p.startswith(("child-unreaped:", "child-running:", "child-growth:")):
+        return True
+    if p.startswith(("thread-alive:", "thread-growth:")):
+        return blocked_alias and "PopenThread" not in p and "Reader" not in p
+    return False
+
+
 def classify(case, level, group, probs):
-    if group == "resources" and level == "immediate" and shape_f1(case):
-        if all(p.startswith(("fd-leak:", "child-unreaped:", "child-running:")) for p in probs) and \
-                not any("->file" in p or "->pty" in p or "->socket" in p for p in probs):
+    if shape_f1(case):
+        blocked = shape_f1_blocked_alias(case)
+        if group == "resources" and all(_f1_resource_problem(p, blocked) for p in probs):
             return "C09-F1"
+        if blocked:
+            if group == "std" and all(p.endswith("-> FileThreadDispatcher") for p in probs):
+                return "C09-F1"
+            if group == "sigint" and all("surfaced as None" in p and "ProcProxyThread._signal_int" in p for p in probs):
+                return "C09-F1"
     if group == "handler" and shape_f2(case):
         if all(p.startswith("handler SIGINT:") and p.endswith("-> ProcProxyThread._signal_int") for p in probs):
             return "C09-F2"
@@ -450,9 +482,23 @@ def _sigint_probe():
     return got
 
 
+def _dirty():
+    st = _state
+    ob = st["ob"]
+    out = []
+    if ob.children():
+        out.append("children")
+    if _extra_threads():
+        out.append("threads")
+    if "base_fds" in st and ob.fd_table() != st["base_fds"]:
+        out.append("descriptors")
+    return out
+
+
 def _restore_baseline():
-    """Bring the worker back to its pristine state after a case; returns a reason string when that
-    is impossible (the worker then stops evaluating cases)."""
+    """Bring the worker back to its pristine state after a case (std streams, handlers, cwd, no child,
+    no helper thread, the descriptor table of the first case).  Returns a reason string when that is
+    impossible; the worker then stops evaluating cases."""
     st = _state
     ob = st["ob"]
     sys.stdin, sys.stdout, sys.stderr = st["std"]
@@ -465,48 +511,53 @@ def _restore_baseline():
         os.chdir(st["cwd"])
     except OSError:
         pass
-    if not ob.children() and not _extra_threads():
+    if not _dirty():
         return None
-    # something was left behind: drop every holder xonsh has, collect, kill, wait
+    # something was left behind: drop every holder xonsh has, close what xonsh still owns *through its
+    # owner* (so that no later __del__ closes a recycled descriptor number), kill, reap, collect
+    import subprocess
+
     try:
         from xonsh.built_ins import XSH
+        from xonsh.procs.pipes import PipeChannel
 
         XSH.last = XSH.lastcmd = None
         if getattr(XSH, "interface", None) is not None:
             XSH.interface.lastcmd = None
         XSH.ctx.clear()
         XSH.all_jobs.clear()
+        for o in gc.get_objects():
+            if isinstance(o, PipeChannel):
+                o.close()
     except Exception:  # noqa: BLE001
         pass
     gc.collect()
-    for pid in list(ob.children()):
-        try:
-            os.kill(pid, signal.SIGKILL)
-        except OSError:
-            pass
-    forced = False
     t0 = time.monotonic()
-    while time.monotonic() - t0 < 4.0:
+    killed = False
+    while time.monotonic() - t0 < 5.0:
         for pid in list(ob.children()):
+            if killed or time.monotonic() - t0 > 0.3:
+                try:
+                    os.kill(pid, signal.SIGKILL)
+                except OSError:
+                    pass
             try:
                 os.waitpid(pid, os.WNOHANG)
             except OSError:
                 pass
+        killed = killed or time.monotonic() - t0 > 0.3
         if not ob.children() and not _extra_threads():
-            return "descriptors had to be closed by force" if forced else None
-        if not forced and time.monotonic() - t0 > 1.5 and "base_fds" in st:
-            # a helper thread blocked on a pipe whose other end this process still holds
-            for fd in ob.fd_table():
-                if fd not in st["base_fds"]:
-                    try:
-                        os.close(fd)
-                    except OSError:
-                        pass
-            forced = True
+            break
         time.sleep(0.02)
-    if ob.children():
-        return "children could not be reaped"
-    return "helper threads of an earlier case are still running"
+    try:
+        subprocess._cleanup()
+    except Exception:  # noqa: BLE001
+        pass
+    gc.collect()
+    left = _dirty()
+    if not left:
+        return None
+    return "could not restore a clean worker after a case (%s left behind)" % ",".join(left)
 
 
 def _extra_threads():
@@ -622,7 +673,7 @@ def check_case(case, tolerate=frozenset(), stats=None):
                 if stats is not None:
                     stats.excluded_known[fid] += 1
                 continue
-            classes = sorted({p.split(":")[0] if group != "env" else "env" for p in probs})
+            classes = sorted({p.split(":")[0] if group not in ("env", "sigint") else group for p in probs})
             failures.append(Failure("%s:%s" % (level, group), case, "[%s] %s" % (level, "; ".join(probs)[:900]), finding=fid,
                                     bucket=fid or "%s:%s:%s" % (level, group, "+".join(classes))))
     reason = _restore_baseline()
@@ -740,7 +791,7 @@ def _evaluate(case, st, family):
         return
     open_ids = s["open"]
     if "C09-F1" in open_ids and shape_f1(case) and common.h64(case_key(case))[-1] not in "01":
-        # every instance costs the full grace period three times; keep one in eight while the finding is open
+        # every instance costs the full grace period several times; keep one in eight while the finding is open
         st.excluded_known["C09-F1"] += 1
         return
     nontrivial, labels = case_labels(case)
